@@ -33,6 +33,10 @@ def fmt_variants():
 
 
 RENAMES = {
+    # names that other assemblers would read as NUMBERS (hex digits with an H suffix, all-hex-letter words): here they are labels
+    "numberlike": lambda n: {"START": "EACH", "PRINT": "BACH", "MESSAGE": "DEADH", "FINISH": "CH", "CHROUT": "AH", "BEGIN": "FACEH",
+                             "LOOP": "BEEF", "TABLE": "CAFE", "VECT": "DEAD", "SUB": "ACEH", "LAST": "FEED", "K1": "ADH", "KOFF": "BABE",
+                             "A1": "FADEH", "A2": "DECAF", "A3": "E0H", "A4": "B1B", "A5": "C0DE", "A6": "F00D"}.get(n, n + "H"),
     "upper-long": lambda n: "Z" + n + "Q",
     "digits": lambda n: n[0] + "9" + n[1:] + "7",
     "lower": lambda n: n.lower() + "x",
